@@ -325,6 +325,31 @@ PROPS["C10"] = dict(
     assumptions=ASSUME_COMMON,
 )
 
+PROPS["C12"] = dict(
+    units=[dict(name="c12", src="props/c12.cpp", deps=["lib/runners.hpp", "lib/pwc.hpp"])],
+    rule="case = numeric type x integrator (generated configuration as in C03, mt19937) x iteration list of 0..8 entries "
+         "(calls 0..2 or 4..304) x one of three layers: (i) logging callback returning false at invocation 1..n+1 or never, "
+         "start checkpoint with 0..2 earlier results; (ii) built-in callback, one of the four modes, target 0, integrand "
+         "identically zero / constant / alternating +-1 (exact zero mean) / NaN everywhere / zero-or-inf / ordinary; (iii) "
+         "built-in callback with target 10^-3..1 on ordinary integrands, optionally resumed after 1-2 iterations; non-trivial: "
+         "(i) stop position strictly between 1 and n, (ii) degenerate integrand with >= 2 iterations, (iii) judged (not "
+         "boundary-ambiguous) with >= 2 iterations; distinct = distinct description; the MPI forms are exercised in C04",
+    quick=dict(shards=8, cases=1500),
+    thorough=dict(shards=16, cases=100000),
+    floors={"logging-callback": 0.2, "builtin-target-zero": 0.2, "builtin-positive-target": 0.2, "degenerate-integrand": 0.15,
+            "resumed-checkpoint": 0.1},
+    level_text="history invariant from the invocation log of a user callback (once per iteration, exactly the results so "
+               "far and prefix-identical, run ends right after the first false, returned checkpoint = last one shown, "
+               "iterations in list order); built-in callback with target 0 performs every requested iteration for all "
+               "four modes and degenerate integrands; with a positive target the stop position equals the first j at "
+               "which the long-double variance-weighted combination has relative error <= target (cases within max(1e-6, "
+               "256 eps kappa) of the target or with NaN are not judged); exploration over generated histories",
+    level_note="trusted: the long double combination model (C13's); a NaN relative error with a positive target is "
+               "boundary-ambiguous by the wording of the property and not judged",
+    technique="rapidcheck over choice tapes; logging-callback history invariant + stop-position reference model",
+    assumptions=ASSUME_COMMON,
+)
+
 NOT_APPLICABLE = {}
 
 ENGINES = [
